@@ -72,6 +72,11 @@ func cmdReplay(args []string) {
 	}
 	r := rep[0]
 	fmt.Printf("replay %s: harness=%s args=%v status=%s failed assertions=%v\n", filepath.Base(path), tp.Harness, tp.Args, r.Status, r.Failures)
+	if os.Getenv("VDEBUG") != "" {
+		for _, o := range r.Obs {
+			fmt.Println("  obs:", o)
+		}
+	}
 	hit := contains(r.Failures, tp.Assert) || r.Status == "crashed-before-output" || strings.HasPrefix(r.Status, "panic")
 	if hit {
 		fmt.Printf("VIOLATION property=%s replay=%s\n", id, path)
